@@ -227,13 +227,15 @@ fn main() {
             let case: Option<vh::ops::Case> = serde_json::from_value(v["case"].clone()).ok();
             match (prop, case) {
                 (Some(p), Some(c)) => {
-                    let fails = |c: &vh::ops::Case| exec_case(c, p).violation.is_some();
+                    let e4 = v["engine"].as_str() == Some("e4");
+                    let run = |c: &vh::ops::Case| if e4 { exec_e4(c) } else { exec_case(c, p) };
+                    let fails = |c: &vh::ops::Case| run(c).violation.is_some();
                     if !fails(&c) {
                         println!("minimize: the case does not violate {} on this tree", p.id());
                         std::process::exit(0);
                     }
                     let min = vh::runner::minimize(&c, &fails);
-                    let viol = exec_case(&min, p).violation;
+                    let viol = run(&min).violation;
                     v["case"] = serde_json::to_value(&min).unwrap();
                     if let Some(x) = viol {
                         v["observed"] = serde_json::json!(x.msg);
